@@ -21,7 +21,14 @@ DENSE_U = ('not', 'once', 'historically', 'eventually', 'always')
 DENSE_B = ('and', 'or', 'implies', 'iff', 'xor', 'since', 'until', 'unless')
 
 
+KNOWN_KEY = 'site:C04-nonzero-start-bounded'
+
+
 def site(case):
+    # coarse fall-back, used only where the executable description of the defect (dref.evaluate_offline_variant) does not
+    # apply; everywhere else check_case() itself separates the documented behaviour from any other deviation
+    if not case.get('no_variant'):
+        return None
     try:
         f = F.from_json(case['formula'])
     except Exception:
@@ -30,6 +37,20 @@ def site(case):
     if t0 > 0 and any(F.interval(g) is not None for g in F.subforms(f)):
         return 'C04-nonzero-start-bounded'
     return None
+
+
+def matches_documented_defect(out, f, signals, times):
+    """True when `out` is exactly what the hard-coded-zero behaviour (open finding) produces; None when that description is unavailable"""
+    try:
+        var, start = dref.evaluate_offline_variant(f, signals, times)
+    except ValueError:
+        return None
+    if not isinstance(out, list) or not out or out[0][0] != start:
+        return False
+    ts = [s[0] for s in out]
+    if any(b < a for a, b in zip(ts, ts[1:])):
+        return False
+    return all(v is None or refsem.same(dref.stepval(out, t), v) for t, v in zip(times, var))
 
 
 def formula_set(tier):
@@ -137,7 +158,18 @@ def check_case(case, spec=None, idx=0, ref=None):
     kind, val = impl.outcome(impl.ct_evaluate, spec, signals)
     if kind != 'ok':
         return 'evaluate() raised %s' % (val,)
-    return compare(val, signals, ref[0], ref[1])
+    msg = compare(val, signals, ref[0], ref[1])
+    if msg is not None:
+        t0 = min(s[0][0] for s in signals.values())
+        if t0 > 0 and any(F.interval(g) is not None for g in F.subforms(f)):
+            m = matches_documented_defect(val, f, signals, ref[0])
+            if m is True:
+                return KNOWN_KEY
+            if m is None:
+                case['no_variant'] = True
+            else:
+                msg += ' (and this is not the documented hard-coded-zero behaviour either)'
+    return msg
 
 
 def run_shard(shard, tier, res):
@@ -168,6 +200,11 @@ def run_shard(shard, tier, res):
             except refsem.DomainError:
                 continue
             msg = check_case(case, spec, si, ref)
+            if msg == KNOWN_KEY:
+                res.known[KNOWN_KEY] += 1
+                res.outcomes['documented hard-coded-zero behaviour'] += 1
+                res.digest(text, si, msg)
+                continue
             if msg is not None:
                 if check_case(case) is None:
                     msg += ' (only on a re-used specification object)'
@@ -187,7 +224,7 @@ def run_shard(shard, tier, res):
 
 def replay(case):
     m = check_case(case)
-    return [m] if m else []
+    return [m] if m and m != KNOWN_KEY else []
 
 
 def finalize(agg, outcomes, flags, tier):
